@@ -110,8 +110,22 @@ class Switch:
                         if tgt in slots:
                             dirty.append((tgt, raw))
                         slots[tgt] = ("val", s_)
+                    elif d in REG32 and memop(s_) and memop(s_)[1] == "rsp" and REG32[d] not in CALLEE_SAVED:
+                        # a scratch register loaded from the frame: if the slot is the MXCSR image just stored, the register
+                        # carries the outgoing context's (= at restore time: the live) MXCSR across the switch
+                        vals[d] = ("live",) if slots.get(off + memop(s_)[2]) == "mxcsr" else None
+                        written_regs.add(REG32[d])
+                        if REG32[d] == "rdx":
+                            rdx_written = True
+                        if REG32[d] == "rsi":
+                            rsi_written = True
+                        if REG32[d] == "rdi":
+                            rdi_written = True
                     elif d in REG64:
                         written_regs.add(d)
+                        for r32_, r64_ in REG32.items():
+                            if r64_ == d:
+                                vals.pop(r32_, None)
                         if d == "rdx":
                             rdx_written = True
                         if d == "rsi":
@@ -142,6 +156,9 @@ class Switch:
                                                   "state restored later is not the state at the switch" % raw))
                     elif ops and ops[0] in REG64:
                         written_regs.add(ops[0])
+                        for r32_, r64_ in REG32.items():
+                            if r64_ == ops[0]:
+                                vals.pop(r32_, None)
                         if ops[0] == "rdx":
                             rdx_written = True
                     else:
